@@ -190,8 +190,11 @@ func ValidateParameter(ctx context.Context, input *RequestValidationInput, param
 				// Next check `parameter.Required && !found` will catch this.
 			case openapi3.ParameterInQuery:
 				q := req.URL.Query()
-				explode := parameter.Explode != nil && *parameter.Explode
-				populateDefaultQueryParameters(q, parameter.Name, value, explode)
+				sm, err := parameter.SerializationMethod()
+				if err != nil {
+					return &RequestError{Input: input, Parameter: parameter, Err: err}
+				}
+				populateDefaultQueryParameters(q, parameter.Name, value, sm.Explode)
 				req.URL.RawQuery = q.Encode()
 			case openapi3.ParameterInHeader:
 				req.Header.Add(parameter.Name, fmt.Sprint(value))
